@@ -33,6 +33,8 @@ from insights.core.evaluators import InsightsEvaluator, SingleEvaluator
 from insights.core.exceptions import (BlacklistedSpec, CalledProcessError, ContentException, SkipComponent,
                                       TimeoutException, ValidationException)
 from insights.core.plugins import Response
+from insights.parsers.client_metadata import BranchInfo
+from insights.specs import Specs
 from insights.formats._json import JsonFormat, JsonFormatterAdapter
 from insights.formats._yaml import YamlFormat, YamlFormatterAdapter
 
@@ -84,6 +86,10 @@ OTHER_VALUES = {
 }
 FALSY_OTHERS = [k for k, f in OTHER_VALUES.items() if not f()]
 TRUTHY_OTHERS = [k for k in OTHER_VALUES if k not in FALSY_OTHERS]
+
+
+# how a base component ends up: present (also with value None) or absent
+PRESENT_HOWS = ("seed", "run", "none", "seednone")
 
 
 class Crash(Exception):
@@ -443,12 +449,15 @@ class RuleSet(object):
                 raise Crash(99)
             if how == "skipraise":
                 raise SkipComponent("absent")
+            if how == "none":
+                return None              # evaluates to None: PRESENT in the broker with value None
             return 1
         fn.__name__ = fn.__qualname__ = "b%d_%d" % (b["id"], tag)
         mod = fake_module(MODULES[0])
         fn.__module__ = mod.__name__
         setattr(mod, fn.__name__, fn)      # yaml names the functions held by a skip response's `missing` attribute
-        return plugins.component()(fn)
+        deco = {"condition": plugins.condition, "combiner": plugins.combiner}.get(b.get("ctype"), plugins.component)
+        return deco()(fn)
 
     def _rule(self, r, tag):
         act = r["act"]
@@ -496,6 +505,8 @@ class RuleSet(object):
         for bs in self.case["bases"]:
             if bs["how"] == "seed":
                 b[self.comps[bs["id"]]] = 1
+            elif bs["how"] == "seednone":
+                b[self.comps[bs["id"]]] = None
         order = []
         b.add_observer(lambda comp, broker: order.append(self.ids.get(comp)))
         b.vorder = order
@@ -506,7 +517,7 @@ class RuleSet(object):
         case = self.case
         out = ["new\t%d\t%d" % (case["limit"], 1 if case["store_skips"] else 0)]
         for b in case["bases"]:
-            out.append("comp\t%d\t%s\t%d" % (b["id"], enc(self.names[b["id"]]), 1 if b["how"] in ("seed", "run") else 0))
+            out.append("comp\t%d\t%s\t%d" % (b["id"], enc(self.names[b["id"]]), 1 if b["how"] in PRESENT_HOWS else 0))
         for r in case["rules"]:
             c = self.comps[r["id"]]
             d = dr.get_delegate(c)
@@ -640,6 +651,20 @@ def expected_details(cls, key, kw, limit):
     return full
 
 
+def named_missing(details):
+    """the component names a skip entry's details call missing: (required, [at-least-one groups])"""
+    import ast
+    if not isinstance(details, str) or not details.startswith("All: "):
+        return None
+    parts = details[len("All: "):].split(" Any: ")
+    try:
+        req = ast.literal_eval(parts[0])
+        groups = [ast.literal_eval(p) for p in parts[1:] if p.strip()]
+    except (ValueError, SyntaxError):
+        return None
+    return req, groups
+
+
 def oracle_ruleset(rs, results, skips, exc_ids, metadata, mdkeys, b, limit, order, participants=None):
     """results: {type: [entry dict]}, skips: [dict], exc_ids: set of rule ids with a recorded exception;
     participants: ids of the rules that took part in an evaluation (default: all); order: the rules in the order
@@ -654,11 +679,21 @@ def oracle_ruleset(rs, results, skips, exc_ids, metadata, mdkeys, b, limit, orde
             listed.setdefault(e.get("component"), []).append((t, e))
     skipped = {}
     anonymous = 0
+    by_name = {n: i for i, n in rs.names.items()}
     for s in skips:
         if "rule_fqdn" in s:
             skipped.setdefault(s["rule_fqdn"], []).append(s)
         else:
             anonymous += 1
+        # "dependencies met" is about presence in the broker, never about the value: what a skip entry names as
+        # missing must really be absent
+        nm = named_missing(s.get("details"))
+        if nm:
+            for n in nm[0] + [x for g in nm[1] for x in g]:
+                i = by_name.get(n)
+                if i is not None and rs.comps[i] in b:
+                    out.append(("skip entry of %s names %s as missing but it is present in the broker (value %r)"
+                                % (s.get("rule_fqdn"), n, b[rs.comps[i]]), None))
     md_expect = {}
     mdk_expect = {}
     pos = {i: n for n, i in enumerate(order)}
@@ -827,8 +862,10 @@ def gen_case(rng, quick, mode=None):
     nb = rng.randint(1, 4)
     bases = []
     for i in range(nb):
-        bases.append({"id": i, "how": rng.choice(["seed", "seed", "seed", "run", "run", "raise", "skipraise"])})
-    static = [b["id"] for b in bases if b["how"] in ("seed", "raise", "skipraise")]
+        bases.append({"id": i, "how": rng.choice(["seed", "seed", "run", "run", "none", "none", "seednone", "raise", "skipraise"]),
+                      "ctype": rng.choice(["component", "condition", "combiner"])})
+    static = [b["id"] for b in bases if b["how"] in ("seed", "seednone", "raise", "skipraise")]
+    none_valued = [b["id"] for b in bases if b["how"] in ("none", "seednone")]
     nr = rng.randint(1, 10 if quick else 24)
     rules = []
     # a limit shared by the case: small, so that payloads sit around it
@@ -852,6 +889,18 @@ def gen_case(rng, quick, mode=None):
                 r["requires"].append(rng.choice(lower))
         if rng.random() < 0.3:
             r["optional"] = [rng.choice(lower) for _ in range(rng.randint(1, 2))]
+        if none_valued and rng.random() < 0.45:
+            # dependencies that are PRESENT with value None: required, optional, and at-least-one groups in which a
+            # None-valued member comes first / last next to a valued, an absent or another None-valued one
+            nv = rng.choice(none_valued)
+            k = rng.randrange(4)
+            if k == 0:
+                r["requires"].append(nv)
+            elif k == 1:
+                r["optional"] = r["optional"] + [nv]
+            else:
+                other = rng.choice(list(range(nb)))
+                r["alo"].append([nv, other] if k == 2 else [other, nv])
         if rng.random() < 0.12:
             deps = r["requires"] + [d for g in r["alo"] for d in g] + r["optional"]
             pool = static + [d for d in deps]
@@ -875,7 +924,8 @@ def gen_case(rng, quick, mode=None):
         show = [s for s in SHOW_CHOICES if rng.random() < 0.4] if rng.random() < 0.75 else []
         rng.shuffle(show)
         fmts.append({"kind": kind, "missing": rng.random() < 0.5, "fail_only": rng.random() < 0.2, "show": show})
-    return {"limit": limit, "store_skips": rng.random() < 0.4, "bases": bases, "rules": rules, "fmts": fmts}
+    return {"limit": limit, "store_skips": rng.random() < 0.4, "bases": bases, "rules": rules, "fmts": fmts,
+            "scenarios": UNIFORM_SCENARIOS + [gen_scenario(rng)]}
 
 
 def pad_to_limit(rng, act, limit):
@@ -924,26 +974,43 @@ def evaluate(rs, chk=None):
     unfiltered = None
     order0 = None
     with Limit(limit):
-        for E in (SingleEvaluator, InsightsEvaluator):
+        runs = [(SingleEvaluator, None)] + [(InsightsEvaluator, sc) for sc in case.get("scenarios", UNIFORM_SCENARIOS[:1])]
+        for E, sc in runs:
             b = rs.broker()
+            graph = rs.graph
+            if sc is not None:
+                seed_decoration(b, sc)
+                graph = deco_graph(rs, sc)
             ev = E(b, stream=io.StringIO())
-            resp = ev.process(rs.graph)
+            resp = ev.process(graph)
+            name = E.__name__ if sc is None else "InsightsEvaluator[%s]" % ",".join("%s=%s" % kv for kv in sorted(sc.items()))
             if E is SingleEvaluator:
                 unfiltered = resp
                 order0 = list(b.vorder)
             st = rs.canon_state(ev, b)
-            lines.append(rs.run_line(b.vorder))
-            impl.append(st)
-            kinds.append("state:" + E.__name__)
+            if sc is None:
+                lines.append(rs.run_line(b.vorder))
+                impl.append(st)
+                kinds.append("state:" + E.__name__)
+            else:
+                lines.append(irun_line(rs, sc, b.vorder))
+                impl.append({"state": st, "deco": {"system_id": cv(ev.system_id), "release": cv(ev.release),
+                                                   "branch": bool(ev.branch_info)}})
+                kinds.append("istate:" + E.__name__)
             exc_ids = set(int(i) for i in st["excs"])
+            md = dict(resp.get("system", {}).get("metadata", {}))
+            if sc is not None and ev.release:
+                md.pop("release", None)         # decoration: format_response puts the release into the metadata
             # the oracle looks at what get_response() hands out (and broker.exceptions), not at the evaluator's fields
             for desc, finding in oracle_ruleset(rs, results_from_response(resp), [dict(s) for s in resp.get("skips", [])],
-                                                exc_ids, dict(resp.get("system", {}).get("metadata", {})),
-                                                dict(ev.metadata_keys), b, limit, b.vorder):
-                fails.append((E.__name__ + ".get_response: " + desc, finding))
+                                                exc_ids, md, dict(ev.metadata_keys), b, limit, b.vorder):
+                fails.append((name + ".get_response: " + desc, finding))
             for k, v in ev.metadata_keys.items():
                 if k not in RESERVED_HEADINGS and k not in ev.results and resp.get(k) != v:
-                    fails.append(("%s.get_response: metadata key %r is %r in the response, expected %r" % (E.__name__, k, resp.get(k), v), None))
+                    fails.append(("%s.get_response: metadata key %r is %r in the response, expected %r" % (name, k, resp.get(k), v), None))
+            if sc is not None and b.vorder == order0:
+                for desc in same_accounting(rs, name, resp, unfiltered, ev.release):
+                    fails.append((desc, None))
             # get_response: headings
             lines.append("resp\t1\t%s" % ",".join(enc(s) for s in ["rule", "info", "pass", "none", "metadata", "fingerprint"]))
             impl.append(canon_report(rs, resp))
@@ -1008,7 +1075,9 @@ def compare_answers(rs, kinds, impl, model):
             except ValueError:
                 out.append((k, a, m))
                 continue
-            if k.startswith("state"):
+            if k.startswith("istate"):
+                mm = {"state": soften_state(canon_model_state(mm["state"]), a["state"]), "deco": mm["deco"]}
+            elif k.startswith("state"):
                 mm = soften_state(canon_model_state(mm), a)
             elif k.startswith("report"):
                 mm = canon_model_report(mm)
@@ -1022,6 +1091,110 @@ def final_tags(model_state_line):
         return [t for _, t in json.loads(model_state_line)["finals"]]
     except Exception:
         return []
+
+
+# --------------------------------------------------------------------------- decoration providers of InsightsEvaluator
+
+class FakeContent(object):
+    """a lazily loaded provider as InsightsEvaluator.observer sees it: `.content` is read on demand and may raise"""
+
+    def __init__(self, mode, lines):
+        self.mode, self.lines, self.reads = mode, lines, 0
+
+    @property
+    def content(self):
+        self.reads += 1
+        if self.mode == "raises" or (self.mode == "raises-once" and self.reads == 1):
+            raise ContentException("content is gone")
+        return list(self.lines)
+
+
+class FakeBranch(object):
+    def __init__(self, mode):
+        self.mode, self.reads = mode, 0
+
+    @property
+    def data(self):
+        self.reads += 1
+        if self.mode == "raises" or (self.mode == "raises-once" and self.reads == 1):
+            raise ContentException("branch_info is gone")
+        return {} if self.mode == "empty" else {"remote_branch": "b-1", "remote_leaf": "l-1"}
+
+
+DECO_MODES = ["absent", "fine", "raises", "empty"]
+UNIFORM_SCENARIOS = [{"machine_id": m, "release": m, "branch": m, "metadata_json": m} for m in DECO_MODES]
+MACHINE_LINES = ["  dc194312-8cdd-4e75-8cf1-2094bf666f45 \n", "second line"]
+RELEASE_LINES = ["Red Hat Enterprise Linux release 8.9 (Ootpa)\n"]
+
+
+def gen_scenario(rng, release_modes=None):
+    """a mix of provider states; at most ONE provider raises on its first read only (every evaluation has at least two
+    observer calls, so it ends like a fine one — with two such providers the second might never be read)"""
+    sc = {"machine_id": rng.choice(DECO_MODES), "release": rng.choice(release_modes or DECO_MODES),
+          "branch": rng.choice(DECO_MODES), "metadata_json": rng.choice(DECO_MODES)}
+    if rng.random() < 0.5:
+        sc[rng.choice(["machine_id", "branch"] if release_modes else ["machine_id", "release", "branch"])] = "raises-once"
+    return sc
+
+
+def seed_decoration(b, sc):
+    """put the decoration specs into the broker the way the scenario says"""
+    if sc["machine_id"] != "absent":
+        b[Specs.machine_id] = FakeContent(sc["machine_id"], [] if sc["machine_id"] == "empty" else MACHINE_LINES)
+    if sc["release"] != "absent":
+        b[Specs.redhat_release] = FakeContent(sc["release"], [] if sc["release"] == "empty" else RELEASE_LINES)
+    if sc["branch"] != "absent":
+        b[BranchInfo] = FakeBranch(sc["branch"])
+    if sc["metadata_json"] != "absent":
+        # fine: a dict; empty: an empty dict; raises: something without .get
+        b[Specs.metadata_json] = {"fine": {"product_code": "rhel", "role": "host"}, "empty": {}, "raises": object()}[sc["metadata_json"]]
+
+
+def deco_graph(rs, sc):
+    g = dict(rs.graph)
+    if sc["metadata_json"] != "absent":
+        g[Specs.metadata_json] = set()       # fired as a component of the run order: `comp is Specs.metadata_json`
+    return g
+
+
+def prov_field(mode, lines):
+    """protocol form of a content provider; raise-on-first-read ends like a fine one (there are >= 2 observer calls)"""
+    if mode == "absent":
+        return "a"
+    if mode == "raises":
+        return "x"
+    if mode == "empty":
+        return "c"
+    return "c" + ";".join(enc(l) for l in lines)
+
+
+def irun_line(rs, sc, order):
+    br = {"absent": "a", "raises": "x", "empty": "d0"}.get(sc["branch"], "d1")
+    ids = set(rs.rule_ids)
+    return "irun\t%s\t%s\t%s\t%s" % (prov_field(sc["machine_id"], MACHINE_LINES), prov_field(sc["release"], RELEASE_LINES), br,
+                                      ",".join(str(i) for i in order if i in ids) or "-")
+
+
+def same_accounting(rs, name, resp, ref, release):
+    """InsightsEvaluator must account exactly like SingleEvaluator on the same rule set, whatever happened to the
+    decoration: same entries under the same headings, same skips, same metadata (but for the release it adds), same
+    metadata keys"""
+    out = []
+    a, r0 = results_from_response(resp), results_from_response(ref)
+    if {t: [plain_entry(x) for x in es] for t, es in a.items()} != {t: [plain_entry(x) for x in es] for t, es in r0.items()}:
+        out.append("%s lists %r, SingleEvaluator lists %r" % (
+            name, {t: [x.get("component") for x in es] for t, es in a.items()},
+            {t: [x.get("component") for x in es] for t, es in r0.items()}))
+    if [dict(x) for x in resp.get("skips", [])] != [dict(x) for x in ref.get("skips", [])]:
+        out.append("%s has skips %r, SingleEvaluator %r" % (name, resp.get("skips"), ref.get("skips")))
+    md = dict(resp.get("system", {}).get("metadata", {}))
+    md0 = dict(ref.get("system", {}).get("metadata", {}))
+    if release:
+        md.pop("release", None)
+        md0.pop("release", None)
+    if md != md0:
+        out.append("%s has metadata %r, SingleEvaluator %r" % (name, md, md0))
+    return out
 
 
 # --------------------------------------------------------------------------- histories of one evaluator object
@@ -1056,6 +1229,8 @@ def run_history(rs, ev_name, kind):
     fails = []
     with Limit(limit):
         b = rs.broker()
+        if ev_name == "InsightsEvaluator" and rs.case.get("history_scenario"):
+            seed_decoration(b, rs.case["history_scenario"])
         buf = io.StringIO()
         e = make_evaluator(ev_name, b, buf)
         marks = []
@@ -1163,6 +1338,7 @@ def gen_history(rng, quick):
     mode = "dependent" if kind == "seq-dependent" or rng.random() < 0.25 else "disjoint"
     case = gen_case(rng, quick, mode=mode)
     case["fmts"] = []
+    case["history_scenario"] = dict(gen_scenario(rng, release_modes=["absent", "raises", "empty"]), metadata_json="absent")
     return {"kind": "history", "case": case, "history": kind,
             "evaluator": rng.choice(["SingleEvaluator", "InsightsEvaluator", "JsonFormat", "YamlFormat"])}
 
@@ -1287,6 +1463,11 @@ def run(chk):
                  "then process(); add_observer of the bound method twice then process(); process() then with e: dr.run — the first "
                  "40 cases enumerate kind x evaluator; non-response returns: False, 0, 0.0, '', b'', [], {}, (), set(), frozenset(), "
                  "True, 1, 'x', [1], {'a':1}, object(), a class, a look-alike dict (one fixed case with all of them + random)")
+    chk.rule += ("; base components are plain components, conditions or combiners that are seeded, run, raise, skip, or are "
+                 "PRESENT WITH VALUE None (returning None / seeded None), used as required, optional and at-least-one "
+                 "dependencies (None-valued member first or last next to a valued / absent / None-valued one); every rule set "
+                 "is evaluated by InsightsEvaluator five times with Specs.machine_id / Specs.redhat_release / BranchInfo / "
+                 "Specs.metadata_json absent, fine, raising on every read, empty, and one random mix incl. raise-on-first-read")
     chk.assumptions = [
         "the body of a rule is a fixed action (it does not look at its arguments); argument binding is C02's subject",
         "repr() of str is modelled for ASCII exactly and takes code points >= 0xa1 other than U+00AD as printable; values inside responses are None/bool/int/str/list of str",
@@ -1434,6 +1615,19 @@ def run(chk):
         all_lines.extend(lines)
         for desc, finding in fails:
             chk.failure(desc, {"kind": "ruleset", "case": case}, finding=finding)
+        nv = set(x["id"] for x in case["bases"] if x["how"] in ("none", "seednone"))
+        for r in case["rules"]:
+            if nv & set(r["requires"]):
+                chk.count("dep:required-present-None")
+            if nv & set(r["optional"]):
+                chk.count("dep:optional-present-None")
+            for g in r["alo"]:
+                if g and g[0] in nv:
+                    chk.count("dep:group-None-first")
+                elif nv & set(g):
+                    chk.count("dep:group-None-later")
+        for sc in case.get("scenarios", []):
+            chk.count("decoration:machine_id=" + sc["machine_id"])
         chk.count("rules:%d" % len(case["rules"]))
         chk.count("limit:%s" % ("default" if case["limit"] == 65535 else "small"))
         chk.count("store_skips:%d" % case["store_skips"])
@@ -1461,14 +1655,15 @@ def run(chk):
         ans = model[off:off + len(lines)]
         diffs = compare_answers(rs, kinds, impl, ans)
         for k, d in zip(kinds, diffs):
-            name = k.split(":")[0] if k.startswith(("state", "report")) else k
+            name = k.split(":")[0] if k.startswith(("state", "report", "istate")) else k
             if name == "decl":
                 if d is not None:
                     s = n_cmp.setdefault("driver-declarations", [0, 0, None])
                     s[1] += 1
                     s[2] = s[2] or {"case": case, "answer": d[2]}
                 continue
-            stream = {"state": "ruleset-state", "report": "formatter-output", "adapter": "ruleset-adapter"}[name]
+            stream = {"state": "ruleset-state", "report": "formatter-output", "adapter": "ruleset-adapter",
+                      "istate": "insights-decoration-state"}[name]
             if k == "state:history":
                 stream = "history-state"
             s = n_cmp.setdefault(stream, [0, 0, None])
